@@ -266,8 +266,10 @@ def gen_formula(g, dv, t, limit_ref=None, kinds=None):
         k = rng.choice([0, 1, 2, 10])
         return "($%s or 0) + ($%s or 0) + %d" % (a.colId, b.colId, k)
     elif kind == "str":
-      if own:
-        a = rng.choice(own)
+      # not on reference columns: str(record) embeds the table id, which a table rename changes
+      plain = [c for c in own if c.pure not in ("Ref", "RefList") and "lookupOne" not in c.formula]
+      if plain:
+        a = rng.choice(plain)
         return rng.choice(["str($%s)", "UPPER(str($%s))", "len(str($%s))"]) % a.colId
     elif kind == "ref":
       refs = [c for c in own if c.pure == "Ref" and c.target in dv.tables]
@@ -355,6 +357,9 @@ def gen_lookup(g, dv, t, limit_ref, kind, with_order=None):
   return None
 
 
+NO_SORT_BY = [False]     # set by profiles for which legacy sort_by= is outside the property (C16)
+
+
 def _sort_spec_text(rng, sortcols, allow_id=True):
   """A random order_by/sort_by keyword text over the given candidate sort columns."""
   k = rng.random()
@@ -362,7 +367,7 @@ def _sort_spec_text(rng, sortcols, allow_id=True):
     return rng.choice(["", ", order_by=None", ', order_by="id"'] if allow_id else ["", ", order_by=None"])
   s = rng.choice(sortcols)
   one = '"%s%s"' % (rng.choice(["", "-"]), s.colId)
-  if k < 0.2:
+  if k < 0.2 and not NO_SORT_BY[0]:
     return ', sort_by="%s"' % s.colId
   if k < 0.45 and len(sortcols) > 1:
     s2 = rng.choice([c for c in sortcols if c.colId != s.colId] or sortcols)
